@@ -62,10 +62,16 @@ fn value(idx: u64, rng: &mut Rng, mon: &mut Mon) {
     let kin = build(Arc::new(make_solver(rng, &rp)), &layers);
     let q = if rng.bool(0.2) { joints_resting(rng, PI) } else { joints_uniform(rng, PI) };
     let target = ref_forward(&rp, &layers, &q);
-    let j6 = *rng.pick(&[0.0, 1.0, -PI, q[5]]);
+    // (J6 of the 5-DOF variants is the caller's business: also values of more than half a turn / many turns)
+    let j6 = *rng.pick(&[0.0, 1.0, -PI, q[5], 200.0f64.to_radians(), 400.0f64.to_radians(), -1000.0f64.to_radians(), rng.clone().range(-20.0, 20.0)]);
+    let _ = rng.next_u64();
     let mut prev = q;
     for j in 0..6 {
         prev[j] += rng.range(-0.5, 0.5);
+    }
+    // (as previous J6 only inside the documented +-2pi range of previous vectors)
+    if rng.bool(0.3) && j6.abs() <= 2.0 * PI {
+        prev[5] = j6;
     }
     check_stack(mon, &robot, &layers, kin.as_ref(), &q, &target, &prev, j6, axial, "");
     if idx < 2 {
